@@ -2,6 +2,7 @@ package file
 
 import (
 	"context"
+	"errors"
 	"io"
 	"sync"
 
@@ -183,6 +184,7 @@ func (s *shardNodeReader) Seek(offset int64, whence int) (int64, error) {
 	if s.rdr != nil {
 		s.rdr = nil
 	}
+	prev := s.offset
 	switch whence {
 	case io.SeekStart:
 		s.offset = offset
@@ -190,6 +192,11 @@ func (s *shardNodeReader) Seek(offset int64, whence int) (int64, error) {
 		s.offset += offset
 	case io.SeekEnd:
 		s.offset = s.length() + offset
+	}
+	if s.offset < 0 {
+		// a failed seek leaves the position where it was
+		s.offset = prev
+		return 0, errors.New("unixfs file: seek to a negative position")
 	}
 	return s.offset, nil
 }
